@@ -1,7 +1,7 @@
 #!/bin/sh
 # Build the framework offline from files on disk: regenerate Gen/*.v from /repo, full .vo build.
 cd "$(dirname "$0")" || exit 2
-export LC_ALL=C PYTHONDONTWRITEBYTECODE=1 PYTHONPATH=/repo PYTHONHASHSEED=0
+export LC_ALL=C PYTHONDONTWRITEBYTECODE=1 PYTHONPATH="${VERIF_REPO:-/repo}" PYTHONHASHSEED=0
 mkdir -p build evidence replays coq/Gen
 /venv/bin/python translate/gen.py || echo "setup: translation reported failures (checks will report them)"
 cd coq && coq_makefile -f _CoqProject -o Makefile >/dev/null && timeout 3000 make -j16 -k 2>&1 | tail -5
